@@ -5,6 +5,7 @@ import (
 	"runtime"
 	"sort"
 	"sync"
+	"sync/atomic"
 	"time"
 )
 
@@ -39,6 +40,7 @@ type Oracle interface {
 type OCtx struct {
 	Sc   *Scenario
 	Rig  *Rig
+	Rig2 *Rig // second, independently constructed instance (determinism runs)
 	wit  map[string]int64
 	outc map[string]int64
 	maps *mapOrderStats
@@ -99,6 +101,7 @@ type Engine struct {
 	Outcomes    map[string]int64  // action kind/outcome -> count
 	Found       map[string]*Found // by signature
 	Hard        []string          // hard errors (nondeterminism etc.)
+	dirtyLeft   int32             // continuations of memory-carrying processes still allowed in this run
 	Samples     [][]string
 }
 
@@ -160,12 +163,14 @@ type expandResult struct {
 	inv    []Violation // invariant violations (target state)
 	self   bool
 	halt   bool // the end-of-block routine panicked: the chain has halted, this state has no future
+	extra  []Found // violations found in the continuation of a process whose keeper memory was changed (trace = suffix after the parent)
 }
 
 func (e *Engine) Run() error {
 	if e.Workers <= 0 {
 		e.Workers = runtime.NumCPU()
 	}
+	e.dirtyLeft = 6
 	e.index = map[[32]byte]int32{}
 	e.Wit = map[string]int64{}
 	e.Outcomes = map[string]int64{}
@@ -222,7 +227,11 @@ func (e *Engine) expandLevel(frontier []int32, depth int) ([]int32, bool) {
 	var aborted bool
 	var abortMu sync.Mutex
 	for w := 0; w < e.Workers; w++ {
-		x := &OCtx{Sc: e.Sc, Rig: e.rig, wit: map[string]int64{}, outc: map[string]int64{}}
+		// every worker has its own keeper instances: nothing a keeper might hold in memory is shared between workers
+		x := &OCtx{Sc: e.Sc, Rig: NewRig(e.Sc.Rig), wit: map[string]int64{}, outc: map[string]int64{}}
+		if e.DetCheck {
+			x.Rig2 = NewRig(e.Sc.Rig)
+		}
 		ctxs[w] = x
 		wg.Add(1)
 		go func() {
@@ -284,6 +293,9 @@ func (e *Engine) expandLevel(frontier []int32, depth int) ([]int32, bool) {
 					e.nodes[id].expand = true
 				}
 			}
+			for _, f := range r.extra {
+				e.recordSuffix(f.Violation, r.parent, f.Trace)
+			}
 			for _, vi := range r.viols {
 				e.recordEdge(vi, r.parent, r.act)
 			}
@@ -335,24 +347,40 @@ func (e *Engine) mergeCounts(x *OCtx) {
 
 func (e *Engine) expandNode(x *OCtx, id int32) []expandResult {
 	pre := e.nodes[id].st
-	preV := e.rig.Decode(pre)
+	preV := x.Rig.Decode(pre)
 	preMon := ParseMon(pre.Mon)
 	acts := e.Sc.Enabled(preV)
 	out := make([]expandResult, 0, len(acts))
 	for _, a := range acts {
-		post, res := Exec(e.rig, e.Sc, pre, a)
+		if x.Rig.Dirty() { // left by a re-execution (map orders): never carry keeper memory into another transition
+			x.Rig = NewRig(e.Sc.Rig)
+		}
+		post, res := Exec(x.Rig, e.Sc, pre, a)
 		var viols []Violation
+		var extra []Found
+		if x.Rig.Dirty() {
+			// the transition changed what the keeper holds in memory: state outside the store (keepermem.go). Follow the
+			// process that now carries it for a few steps, then go on with a clean keeper so that it reaches no other state.
+			x.Wit("engine:keeper-memory-changed-by-a-transition")
+			if e.dirtyBudget() {
+				extra = e.dirtyContinuation(x, pre, a)
+			}
+			x.Rig = NewRig(e.Sc.Rig)
+		}
 		if e.DetCheck {
-			post2, res2 := Exec(e.rig2, e.Sc, pre, a)
+			post2, res2 := Exec(x.Rig2, e.Sc, pre, a)
+			if x.Rig2.Dirty() {
+				x.Rig2 = NewRig(e.Sc.Rig)
+			}
 			if post.StoreHash() != post2.StoreHash() || res.Outcome() != res2.Outcome() {
 				viols = append(viols, viol("C20", "deterministic-replay", a.Kind, "two-keeper-instances-diverge",
 					fmt.Sprintf("same state + same action gave different successors (%s vs %s)", res.Outcome(), res2.Outcome())))
 			}
 		}
 		if e.DetCheck && mapOrderEnabled {
-			viols = append(viols, mapOrderCheck(e.rig, e.Sc, pre, a, post, res, x.mapStats())...)
+			viols = append(viols, mapOrderCheck(x.Rig, e.Sc, pre, a, post, res, x.mapStats())...)
 		}
-		postV := e.rig.Decode(post)
+		postV := x.Rig.Decode(post)
 		postMon := preMon.Update(e.MonFlags, e.Sc, preV, a, res, postV)
 		post.Mon = postMon.Bytes()
 		x.outc[a.Kind+"/"+res.Outcome()]++
@@ -384,7 +412,7 @@ func (e *Engine) expandNode(x *OCtx, id int32) []expandResult {
 				}
 			}
 		}
-		out = append(out, expandResult{parent: id, act: a.Name, post: post, hash: h, viols: viols, inv: inv, self: self, halt: halt})
+		out = append(out, expandResult{parent: id, act: a.Name, post: post, hash: h, viols: viols, inv: inv, self: self, halt: halt, extra: extra})
 	}
 	return out
 }
@@ -414,6 +442,15 @@ func (e *Engine) record(vi Violation, at int32, act string) {
 	e.recordEdge(vi, at, act)
 }
 
+func (e *Engine) recordSuffix(vi Violation, parent int32, suffix []string) {
+	f, ok := e.Found[vi.Sig]
+	if !ok {
+		f = &Found{Violation: vi, Trace: append(e.trace(parent), suffix...)}
+		e.Found[vi.Sig] = f
+	}
+	f.Count++
+}
+
 func (e *Engine) recordEdge(vi Violation, parent int32, act string) {
 	f, ok := e.Found[vi.Sig]
 	if !ok {
@@ -440,5 +477,97 @@ func (e *Engine) SampleTraces(n int) [][]string {
 	for i := len(e.nodes) - 1; i > 0 && len(out) < n; i -= step {
 		out = append(out, e.trace(int32(i)))
 	}
+	return out
+}
+
+// dirtyBudget: at most a handful of continuations per run (each costs about a second); further events are only counted.
+func (e *Engine) dirtyBudget() bool {
+	return atomic.AddInt32(&e.dirtyLeft, -1) >= 0
+}
+
+// dirtyContinuation follows, for up to three more actions in every order the alphabet allows, the one process that
+// executed action a on state pre and thereby changed its keeper's memory. Each branch runs on a keeper built for it
+// (build, execute a, continue), next to a keeper that never saw a (a node restarted from the same stores). The run's
+// oracles judge the steps of the memory-carrying process; a step on which the two processes differ violates C20
+// ("independent of process"). Traces are replayable: replay executes a whole trace on one keeper.
+func (e *Engine) dirtyContinuation(x *OCtx, pre *State, a Action) []Found {
+	const depth = 3
+	found := map[string]*Found{}
+	var rec func(seq []string)
+	run := func(seq []string) (next []Action) {
+		D, F := NewRig(e.Sc.Rig), NewRig(e.Sc.Rig)
+		s, res0 := Exec(D, e.Sc, pre, a)
+		preV := D.Decode(pre)
+		mon := ParseMon(pre.Mon)
+		v := D.Decode(s)
+		mon = mon.Update(e.MonFlags, e.Sc, preV, a, res0, v)
+		s.Mon = mon.Bytes()
+		for i, name := range seq {
+			var act *Action
+			for _, b := range e.Sc.Enabled(v) {
+				if b.Name == name {
+					bb := b
+					act = &bb
+					break
+				}
+			}
+			if act == nil {
+				return nil
+			}
+			post, res := Exec(D, e.Sc, s, *act)
+			postF, resF := Exec(F, e.Sc, s, *act)
+			pv := D.Decode(post)
+			pm := mon.Update(e.MonFlags, e.Sc, v, *act, res, pv)
+			post.Mon = pm.Bytes()
+			if i == len(seq)-1 { // earlier steps were judged when the shorter sequence ran
+				var vs []Violation
+				if post.StoreHash() != postF.StoreHash() || res.Outcome() != resF.Outcome() {
+					vs = append(vs, viol("C20", "independent-of-process", act.Kind, "keeper-memory",
+						fmt.Sprintf("after %s the process that executed it and a process restarted from the same stores give different results for %s (%s vs %s)", a.Name, act.Name, res.Outcome(), resF.Outcome())))
+				}
+				halt := act.Kind == "E" && res.Panic != ""
+				t := &Trans{Pre: v, Act: *act, Res: res, Post: pv, PreMon: mon, PostMon: pm}
+				for _, o := range e.Oracles {
+					if (halt || (act.Kind == "restart" && res.OK())) && o.Prop() != "C20" {
+						continue
+					}
+					vs = append(vs, o.Step(x, t)...)
+					if !halt {
+						for _, vi := range o.Invariant(x, pv, pm) {
+							vi.Sig = invSig(vi.Sig, act.Kind)
+							vs = append(vs, vi)
+						}
+					}
+				}
+				for _, vi := range vs {
+					if f, ok := found[vi.Sig]; ok {
+						f.Count++
+					} else {
+						found[vi.Sig] = &Found{Violation: vi, Trace: append([]string{a.Name}, seq...), Count: 1}
+					}
+				}
+				if halt || len(vs) > 0 {
+					return nil
+				}
+			}
+			s, v, mon = post, pv, pm
+		}
+		return e.Sc.Enabled(v)
+	}
+	rec = func(seq []string) {
+		next := run(seq)
+		if len(seq) >= depth {
+			return
+		}
+		for _, b := range next {
+			rec(append(append([]string{}, seq...), b.Name))
+		}
+	}
+	rec(nil)
+	var out []Found
+	for _, f := range found {
+		out = append(out, *f)
+	}
+	sort.Slice(out, func(i, j int) bool { return out[i].Sig < out[j].Sig })
 	return out
 }
